@@ -14,6 +14,7 @@ import BqVerif.Proofs.CircBatchUnfoldOk
 import BqVerif.Proofs.CircRemoveAll
 import BqVerif.Proofs.CircSlice
 import BqVerif.Proofs.CircBatchPopGrid
+import BqVerif.Proofs.CircReplaceWith
 /-! # C04 — Circuit editing calls have their documented effect on program order -/
 namespace BqVerif.C04
 open BqVerif.Circ
@@ -632,5 +633,47 @@ example :
       normIdx c.numQudits (-2) = 1 ∧
       (c.popQudit (-2)).1 = ⟨[2, 2], [[⟨1, [], [0], [2]⟩], [⟨2, [], [1], [2]⟩],
         [⟨1, [], [1], [2]⟩]]⟩ := by decide
+
+/-- **replace_with_circuit(point, circuit)** as a stand-alone theorem: for a point holding an
+operation `o` and an `Inv` sub-circuit on the radixes of `o`, the call succeeds, keeps `Inv`, and in
+every timeline the place of `o` is taken by a linearisation `inner` of the sub-circuit relabelled
+through `o`'s location (same per-qudit order as the sub-circuit's iteration order); nothing else
+moves.  (`C04_unfold_timeline` is the instance "sub-circuit = body of the block with its parameters
+set".) -/
+theorem C04_replace_with_circuit_timeline (c : Circ) (hinv : c.Inv) (p : Int × Int) (k q0 : Nat)
+    (o : Op) (sub : Circ) (hg : c.getOp p = .ok (k, q0, o)) (hsubinv : sub.Inv)
+    (hfit : sub.radixes = o.rad) :
+    ∃ (hlt : k < c.cycles.length) (inner : List Op),
+      (c.replaceWithCircuit p sub).2 = .ok () ∧ (c.replaceWithCircuit p sub).1.Inv ∧
+      (∀ x ∈ inner, x.loc ≠ []) ∧
+      (∀ q, proj q inner = proj q (sub.iter.map (·.mapLoc o.loc))) ∧
+      (∀ q, c.timeline q = proj q (c.cycles.take k).flatten ++ (if o.on q then [o] else []) ++
+        proj q (c.cycles[k].filter (fun x => !x.on q0)) ++
+          proj q (c.cycles.drop (k + 1)).flatten) ∧
+      (∀ q, (c.replaceWithCircuit p sub).1.timeline q =
+        proj q (c.cycles.take k).flatten ++ proj q inner ++
+        proj q (c.cycles[k].filter (fun x => !x.on q0)) ++
+          proj q (c.cycles.drop (k + 1)).flatten) :=
+  replaceWithCircuit_timeline c hinv p k q0 o sub hg hsubinv hfit
+
+/-- … and its semantic reading: if the replaced operation denotes what the relabelled sub-circuit
+denotes, the circuit denotes what it did. -/
+theorem C04_replace_with_circuit_same_unitary {M : Type} [Monoid M] (sem : Op → M)
+    (hcomm : ∀ a b, Indep a b → sem a * sem b = sem b * sem a)
+    (c : Circ) (hinv : c.Inv) (p : Int × Int) (k q0 : Nat) (o : Op) (sub : Circ)
+    (hg : c.getOp p = .ok (k, q0, o)) (hsubinv : sub.Inv) (hfit : sub.radixes = o.rad)
+    (hsem : sem o = den sem (sub.iter.map (·.mapLoc o.loc))) :
+    den sem (c.replaceWithCircuit p sub).1.iter = den sem c.iter :=
+  replaceWithCircuit_same_den sem hcomm c hinv p k q0 o sub hg hsubinv hfit hsem
+
+-- non-vacuity: replacing the gate on (2,0) in the middle cycle by a 2-cycle circuit
+example :
+    let sub : Circ := ⟨[2, 2], [[⟨1, [], [0], [2]⟩], [⟨6, [], [0, 1], [2, 2]⟩]]⟩
+    let old : Op := ⟨7, [], [2, 0], [2, 2]⟩
+    let c : Circ := ⟨[2, 2, 2], [[⟨2, [], [1], [2]⟩], [old], [⟨2, [], [0], [2]⟩]]⟩
+    c.invB = true ∧ sub.invB = true ∧ c.getOp (-2, 0) = .ok (1, 0, old) ∧ sub.radixes = old.rad ∧
+      c.replaceWithCircuit (-2, 0) sub =
+        (⟨[2, 2, 2], [[⟨2, [], [1], [2]⟩], [⟨1, [], [2], [2]⟩], [⟨6, [], [2, 0], [2, 2]⟩],
+          [⟨2, [], [0], [2]⟩]]⟩, .ok ()) := by decide
 
 end BqVerif.C04
